@@ -55,6 +55,9 @@ cases = json.load(sys.stdin)
 out = []
 for c in cases:
     r = pipeline.run_impl(c)
+    for call in r.get('tlog') or []:
+        if isinstance(call.get('mapping'), dict):
+            call['mapping'] = list(call['mapping'].items())       # key order is observable by a translation function
     src = ''
     try:
         t = PageTemplate(c['src'], keep_source=True, **{k: (set(v) if k == 'boolean_attributes' else v) for k, v in c.get('cfg', {}).items()})
@@ -74,7 +77,7 @@ def gen_cases(rng, n):
     for i in range(n):
         r = rng.random()
         if r < 0.12:
-            cases.append({'src': rng.choice(I18N), 'vars': [['a', {'str': 'Ann'}]], 'objs': []})
+            cases.append({'src': rng.choice(I18N), 'vars': [['a', {'str': 'Ann'}]], 'objs': [], 'translate': 'record'})
         elif r < 0.2:
             cases.append({'src': MACRO, 'vars': [['a', i]], 'objs': []})
         else:
@@ -84,7 +87,7 @@ def gen_cases(rng, n):
 
 
 def strip(r):
-    return {k: r.get(k) for k in ('out', 'exc', 'cls', 'msg', 'log', 'errors', 'token', 'offset') if k in r}
+    return {k: r.get(k) for k in ('out', 'exc', 'cls', 'msg', 'log', 'tlog', 'errors', 'token', 'offset') if k in r}
 
 
 def correspondence(ctx):
@@ -286,8 +289,9 @@ def oracle(ctx):
             ctx.violation('the same template renders differently in processes with different hash seeds', {'src': c['src'], 'vars': c['vars'], 'objs': c['objs']},
                           expected=a[0][0], actual=[x[0] for x in a])
         elif a[0][1] != a[1][1] or a[0][1] != a[2][1]:
-            ctx.violation('the generated module differs between processes with different hash seeds (identifiers renumbered)',
-                          {'src': c['src'], 'vars': c['vars'], 'objs': c['objs']}, expected=a[0][1], actual=[x[1] for x in a])
+            # not a violation: the property is about what render() returns.  (The text of the generated module may list the
+            # elements of a set literal in another order; counted for information.)
+            ctx.count('generated_source_text_differs_across_hash_seeds')
     # caller-owned search_path lists
     d = tempfile.mkdtemp(prefix='c14_')
     try:
